@@ -7,21 +7,19 @@
       assemble_refines_spec : forall P A shapes tri, wf_input P A shapes ->
           Model.assemble (encode P) (encode A) shapes tri
           = (encode (Spec.kkt_matrix P A shapes tri), Spec.kkt_maps P A shapes tri)
-    Proved towards it (Triu): [C11_fill_script] (count -> prefix sums -> puts -> backshift is
-    correct for every script), [C11_triu_script_refines_spec_partial] (running the Spec's own
-    entry list as the script gives the Spec matrix and every tag position, under
-    [buckets_sorted]), [C11_cones_fill_script] (the cone loop of the model IS that script run,
-    all four shapes).  Missing links, exactly: (a) [buckets_sorted] from [wf_input];
-    (b) [assemble_colcounts] = [script_counts] (cone part done: [C11_cones_colcounts]; P/A/missing-diag
-    part and add_counts-from-zero = script_counts missing); (c) [fill_block]/[fill_missing_diag] on the raw
-    encoding = script run over [eP]/[eMiss]/[eA]; (d) diag_full/diagP extraction = [pos_rc];
-    (e) the Tril order.  All of them remain validated by the correspondence
-    (checker [Kkt.Check.c_assemble], code 3 = Model differs). *)
+    Proved (Triu): [C11_assemble_refines_spec_triu_partial] — Model.assemble on the raw encodings
+    returns the Spec matrix and the Spec maps P, A, Hsblocks and sparse maps, from [wf_input] and
+    [buckets_sorted] (every column of the Spec entry list in non-decreasing row order; evaluated
+    as a boolean on every generated Triu layout).  Built from [C11_fill_script],
+    [C11_triu_script_refines_spec_partial], [C11_cones_fill_script], [C11_cones_colcounts] and the
+    raw-encoding lemmas of Kkt/LemmasRaw.v.  Missing, exactly: (a) [buckets_sorted] from
+    [wf_input]; (d) the diag_full/diagP extraction = [pos_rc]; (e) the Tril order.  These remain
+    validated by the correspondence (checker [Kkt.Check.c_assemble], code 3 = Model differs). *)
 From Coq Require Import List ZArith Reals Permutation Lia.
 Import ListNotations.
 Require Import Clarabel.Base.Ops Clarabel.Csc.Model Clarabel.Kkt.Spec Clarabel.Kkt.Model Clarabel.Kkt.Stmts.
 Require Import Clarabel.Kkt.LemmasSchur Clarabel.Kkt.LemmasVals Clarabel.Kkt.LemmasSpec Clarabel.Kkt.LemmasDiag.
-Require Import Clarabel.Kkt.LemmasWf Clarabel.Kkt.LemmasFill Clarabel.Kkt.LemmasRefine Clarabel.Kkt.LemmasCone Clarabel.Kkt.LemmasCount.
+Require Import Clarabel.Kkt.LemmasWf Clarabel.Kkt.LemmasFill Clarabel.Kkt.LemmasRefine Clarabel.Kkt.LemmasCone Clarabel.Kkt.LemmasCount Clarabel.Kkt.LemmasRaw.
 
 (** eliminating the auxiliary variables of a sparse expansion reproduces the cone's H *)
 Theorem C11_soc_expansion_schur : stmt_soc_expansion_schur.
@@ -64,6 +62,10 @@ Theorem C11_cones_fill_script : stmt_cones_fill_script.
 Proof. exact cones_fill_script_ok. Qed.
 Theorem C11_cones_colcounts : stmt_cones_colcounts.
 Proof. exact cones_colcounts_ok. Qed.
+(** the composed Triu refinement: Model.assemble on the raw encodings = Spec (matrix, maps P, A,
+    Hsblocks, sparse maps), from wf_input + buckets_sorted *)
+Theorem C11_assemble_refines_spec_triu_partial : stmt_assemble_refines_spec_triu_partial.
+Proof. exact assemble_refines_spec_triu_partial_ok. Qed.
 Theorem C11_buckets_sortedb_sound : stmt_buckets_sortedb_sound.
 Proof. exact buckets_sortedb_sound_ok. Qed.
 
